@@ -38,7 +38,7 @@ type ModelInputs struct {
 func (e *Engine) VerifyFunction(fn *ssa.Function, con *Contract) *FnResult {
 	t0 := time.Now()
 	fx := &FnCtx{eng: e, fn: fn, con: con, obls: map[string]*Obligation{}, heapSorts: map[string]string{}, loops: map[*ssa.BasicBlock]*loopInfo{},
-		unsup: map[string]bool{}, notes: map[string]bool{}, params: map[string]*Val{}, maxPaths: 6000, keySorts: map[string]string{}, locksTouched: map[string]bool{}, covers: map[string]bool{}}
+		unsup: map[string]bool{}, notes: map[string]bool{}, params: map[string]*Val{}, maxPaths: 6000, keySorts: map[string]string{}, locksTouched: map[string]bool{}, covers: map[string]bool{}, exercised: map[*AtCall]bool{}}
 	fx.sol = NewSolver(e.TimeoutMs)
 	defer fx.sol.Close()
 	res := &FnResult{Func: shortFn(fn.String())}
@@ -157,6 +157,18 @@ func (fx *FnCtx) finish(res *FnResult, t0 time.Time) {
 		res.Notes = append(res.Notes, n)
 	}
 	sort.Strings(res.Notes)
+	if fx.con != nil && !fx.aborted {
+		for _, ac := range fx.con.AtCalls {
+			if !fx.exercised[ac] {
+				fx.unsup["at-call clause "+ac.Tag()+" for "+shortFn(ac.Callee)+" matches no call in the body (contract out of date or call removed)"] = true
+			}
+		}
+	}
+	res.Unsupported = res.Unsupported[:0]
+	for u := range fx.unsup {
+		res.Unsupported = append(res.Unsupported, u)
+	}
+	sort.Strings(res.Unsupported)
 	res.Covers = fx.covers
 	res.ReachableReturns = fx.reachableReturns
 	if fx.reachableReturns == 0 && !fx.aborted && len(fx.unsup) == 0 && fx.paths > 0 && fx.hasReturn() {
